@@ -491,7 +491,7 @@ func (ex *Exec) execIf(st *State, s *ast.IfStmt) flow {
 		st = f.normal[0]
 	}
 	c := ex.eval(st, s.Cond, nil)
-	cond := ex.eng.smt.define("c", "Bool", c.S)
+	cond := ex.def("c", "Bool", c.S)
 	out := flow{}
 	thenSt := st.clone()
 	thenSt.assume(cond)
@@ -572,7 +572,7 @@ func (ex *Exec) execSwitch(st *State, s *ast.SwitchStmt, label string) flow {
 				conds = append(conds, v.S)
 			}
 		}
-		cond := ex.eng.smt.define("case", "Bool", or(conds...))
+		cond := ex.def("case", "Bool", or(conds...))
 		hit := rest.clone()
 		hit.assume(cond)
 		rest.assume(not(cond))
@@ -654,7 +654,7 @@ func (ex *Exec) execTypeSwitch(st *State, s *ast.TypeSwitchStmt, label string) f
 			conds = append(conds, ok)
 			single = v
 		}
-		cond := ex.eng.smt.define("tcase", "Bool", or(conds...))
+		cond := ex.def("tcase", "Bool", or(conds...))
 		hit := rest.clone()
 		hit.assume(cond)
 		rest.assume(not(cond))
@@ -917,7 +917,7 @@ func (ex *Exec) execFor(st *State, s *ast.ForStmt, label string) flow {
 		body := s0
 		if s.Cond != nil {
 			c := ex.eval(s0, s.Cond, nil)
-			cond := ex.eng.smt.define("lc", "Bool", c.S)
+			cond := ex.def("lc", "Bool", c.S)
 			ex1 := s0.clone()
 			ex1.assume(not(cond))
 			exits = append(exits, ex1)
